@@ -94,3 +94,5 @@ func metaFields(m common.Meta) []string {
 	msgs := m.Messages.Get()
 	return append([]string{nospaceString(m.Nospace), m.Usage}, strList(msgs)...)
 }
+
+func atoi(s string) int { n, _ := strconv.Atoi(s); return n }
